@@ -100,7 +100,7 @@ def _planted_matrix(rng, nr, nc):
             r[a] = 0
         hidden.remove(a)
         hidden.append(a)
-    flips = rng.choice([0, 0, 1, 1, 2, 3])
+    flips = rng.choice([0, 0, 0, 1, 2, 3, 4])
     for _ in range(flips):
         if nr and nc:
             r, c_ = rng.randrange(nr), rng.randrange(nc)
@@ -122,8 +122,12 @@ def _rand_instance(rng, mmax, nmax, big=False):
     """returns (alts, ballots, planted) with planted = {domain: witness} for the domains the plant certifies"""
     m = rng.randint(1 if not big else 8, mmax)
     n = rng.randint(1 if not big else 8, nmax)
-    alts = _labels(rng, m) if m < 59 else list(range(1, m + 1))
-    kind = rng.choice(["ci", "cei", "vi", "vei", "part", "part2", "uniform", "ci", "vi"])
+    alts = _labels(rng, m)
+    kind = rng.choice(["ci", "cei", "vi", "vei", "part", "part2", "uniform", "uniform", "cycle", "cycle", "cycle",
+                       "ci", "vi"])
+    if kind in ("uniform", "cycle") and not big:
+        m, n = max(m, min(4, mmax)), max(n, min(4, nmax))
+        alts = _labels(rng, m)
     ballots = []
     planted = {}
     if kind in ("ci", "cei"):
@@ -171,7 +175,7 @@ def _rand_instance(rng, mmax, nmax, big=False):
         k = 2 if kind == "part2" else rng.randint(1, max(1, min(4, m)))
         pool = list(alts)
         rng.shuffle(pool)
-        if kind == "part" and rng.random() < 0.5 and len(pool) > 1:
+        if rng.random() < (0.5 if kind == "part" else 0.25) and len(pool) > 1:
             pool = pool[: rng.randint(1, len(pool))]       # alternatives approved by nobody
         cuts = sorted(rng.sample(range(1, len(pool)), min(k - 1, len(pool) - 1))) if len(pool) > 1 else []
         parts = [pool[i:j] for i, j in zip([0] + cuts, cuts + [len(pool)])]
@@ -179,12 +183,26 @@ def _rand_instance(rng, mmax, nmax, big=False):
             b = list(rng.choice(parts))
             rng.shuffle(b)
             ballots.append(b)
+    elif kind == "cycle":
+        # a forbidden configuration ({a,b},{b,c},{a,c} on the candidate side or its transpose) plus random ballots
+        p = rng.choice([0.2, 0.5])
+        ballots = [[a for a in alts if rng.random() < p] for _ in range(n)]
+        if m >= 3 and n >= 3:
+            tri = rng.sample(alts, 3)
+            rows = rng.sample(range(n), 3)
+            if rng.random() < 0.5:
+                for i, (x, y) in zip(rows, [(0, 1), (1, 2), (0, 2)]):
+                    ballots[i] = [a for a in ballots[i] if a not in tri] + [tri[x], tri[y]]
+            else:
+                for t, (x, y) in zip(tri, [(0, 1), (1, 2), (0, 2)]):
+                    for k_, i in enumerate(rows):
+                        ballots[i] = [a for a in ballots[i] if a != t] + ([t] if k_ in (x, y) else [])
     else:
-        p = rng.choice([0.2, 0.5, 0.8])
+        p = rng.choice([0.3, 0.5, 0.7])
         ballots = [[a for a in alts if rng.random() < p] for _ in range(n)]
     # noise
-    if rng.random() < 0.45:
-        for _ in range(rng.choice([1, 1, 2])):
+    if rng.random() < 0.4:
+        for _ in range(rng.choice([1, 1, 2, 3])):
             i = rng.randrange(n)
             a = rng.choice(alts)
             if a in ballots[i]:
@@ -192,10 +210,9 @@ def _rand_instance(rng, mmax, nmax, big=False):
             else:
                 ballots[i] = ballots[i] + [a]
         planted = {}
-    if n >= 2 and rng.random() < 0.3:
+    if n >= 2 and rng.random() < 0.3 and not planted:
         i, j = rng.randrange(n), rng.randrange(n)
-        if not planted:
-            ballots[i] = list(ballots[j])
+        ballots[i] = list(ballots[j])
     return alts, ballots, planted
 
 
@@ -223,12 +240,19 @@ def generate(tier, seed):
             out.append(_mcase(rows, nc, exh=1))
     for nr, nc in [(0, 0), (0, 3), (3, 0), (0, 1), (1, 0)]:
         out.append(_mcase([[] for _ in range(nr)], nc, exh=1, degenerate=1))
-    nrand = 1500 if quick else 30000
+    nrand = 4000 if quick else 40000
     for i in range(nrand):
         nr, nc = rng.randint(1, 6), rng.randint(1, 7)
-        if i % 4 == 3:
-            p = rng.choice([0.3, 0.5, 0.7])
+        if i % 5 in (3, 4):
+            nr, nc = rng.randint(3, 6), rng.randint(3, 7)
+            p = rng.choice([0.25, 0.4, 0.5, 0.6])
             rows = [[int(rng.random() < p) for _ in range(nc)] for _ in range(nr)]
+            if rng.random() < 0.3:
+                rows[rng.randrange(nr)] = list(rows[rng.randrange(nr)])
+            if rng.random() < 0.3:
+                a, b = rng.randrange(nc), rng.randrange(nc)
+                for r in rows:
+                    r[a] = r[b]
             out.append(_mcase(rows, nc, gen="uniform"))
         else:
             rows, hidden = _planted_matrix(rng, nr, nc)
@@ -249,18 +273,18 @@ def generate(tier, seed):
                     if dom == "part2" and n == 0 and "part2_no_ballots" not in _OPEN:
                         continue
                     out.append(_icase(dom, alts, prof, exh=1, ncat=1 + (len(out) % 2)))
-    if not quick:
+    if True:
         alts = label_sets[4]
         subs = list(_subsets(alts))
         for n in range(1, 4):
-            for prof in itertools.combinations_with_replacement(subs, n):
+            for prof in (itertools.combinations_with_replacement(subs, n) if quick else itertools.product(subs, repeat=n)):
                 prof = list(prof)
                 rng.shuffle(prof)
                 for dom in DOMAINS:
                     out.append(_icase(dom, alts, prof, exh=1, ncat=1 + (len(out) % 2)))
     # ---- random small (reference runs) --------------------------------------------------------------------
-    nri = 700 if quick else 9000
-    mmax = 5 if quick else 6
+    nri = 1500 if quick else 12000
+    mmax = 6 if quick else 7
     for i in range(nri):
         alts, ballots, planted = _rand_instance(rng, mmax, mmax)
         for dom in DOMAINS:
